@@ -4,4 +4,8 @@ HERE="$(cd "$(dirname "$0")" && pwd)"
 if ! /venv/bin/python -c "import hypothesis" >/dev/null 2>&1; then
     /venv/bin/python -m pip install -q --no-index --find-links /opt/veriftools/wheels --target "$HERE/.deps" hypothesis || exit 1
 fi
+# optional: atheris for the coverage-guided secondary engine of C18's thorough tier (skipped with a note if unavailable)
+if ! PYTHONPATH="$HERE/.deps" /venv/bin/python -c "import atheris" >/dev/null 2>&1; then
+    /venv/bin/python -m pip install -q --no-index --find-links /opt/veriftools/wheels --target "$HERE/.deps" atheris >/dev/null 2>&1 || echo "setup: atheris not installed (C18 thorough runs without its fuzzing engine)"
+fi
 PYTHONPATH="/repo:$HERE:$HERE/.deps" /venv/bin/python -c "import hypothesis, labtech, pbt.core; print('setup ok: hypothesis', hypothesis.__version__)"
